@@ -2,6 +2,7 @@ package main
 
 import (
 	"os"
+	"syscall"
 	"bufio"
 	"fmt"
 	"io"
@@ -22,23 +23,52 @@ type Solver struct {
 	Unknown int
 	Time    time.Duration
 	log     io.Writer
+	timeoutMs int
+	dead    bool
 }
 
 var solverGen int
 
+var liveSolver *Solver
+
+// NewSolver returns a fresh solver context. The z3 process of the previous job of this worker is reused through
+// (reset) when the per-query timeout is unchanged; every term must be re-emitted (solverGen).
 func NewSolver(timeoutMs int) *Solver {
 	solverGen++
 	if timeoutMs == 0 {
 		timeoutMs = 10000
 	}
+	if s := liveSolver; s != nil && s.timeoutMs == timeoutMs && !s.dead {
+		s.depth = 0
+		s.Queries, s.Sat, s.Unsat, s.Unknown, s.Time = 0, 0, 0, 0, 0
+		s.log = nil
+		s.send("(reset)\n(set-option :global-declarations true)\n(set-option :produce-models true)\n")
+		return s
+	}
+	if liveSolver != nil {
+		liveSolver.kill()
+	}
 	cmd := exec.Command(solverBin(), "-in", fmt.Sprintf("-t:%d", timeoutMs))
-	in, _ := cmd.StdinPipe()
-	out, _ := cmd.StdoutPipe()
-	cmd.Stderr = cmd.Stdout
+	// blocking pipes: a query is a synchronous round trip, the runtime poller only adds latency
+	var p1, p2 [2]int
+	if err := syscall.Pipe(p1[:]); err != nil {
+		panic(err)
+	}
+	if err := syscall.Pipe(p2[:]); err != nil {
+		panic(err)
+	}
+	syscall.CloseOnExec(p1[1])
+	syscall.CloseOnExec(p2[0])
+	childIn, in := os.NewFile(uintptr(p1[0]), "z3-stdin"), os.NewFile(uintptr(p1[1]), "z3-stdin-w")
+	out, childOut := os.NewFile(uintptr(p2[0]), "z3-stdout-r"), os.NewFile(uintptr(p2[1]), "z3-stdout")
+	cmd.Stdin, cmd.Stdout, cmd.Stderr = childIn, childOut, childOut
 	if err := cmd.Start(); err != nil {
 		panic(err)
 	}
-	s := &Solver{cmd: cmd, in: in, out: bufio.NewReaderSize(out, 1<<20)}
+	childIn.Close()
+	childOut.Close()
+	s := &Solver{cmd: cmd, in: in, out: bufio.NewReaderSize(out, 1<<20), timeoutMs: timeoutMs}
+	liveSolver = s
 	s.send("(set-option :global-declarations true)\n(set-option :produce-models true)\n")
 	return s
 }
@@ -50,9 +80,17 @@ func (s *Solver) send(x string) {
 	io.WriteString(s.in, x)
 }
 
-func (s *Solver) Close() {
+// Close ends a job; the process stays for the next job of this worker.
+func (s *Solver) Close() {}
+
+func (s *Solver) kill() {
+	s.dead = true
 	s.in.Close()
+	s.cmd.Process.Kill()
 	s.cmd.Wait()
+	if liveSolver == s {
+		liveSolver = nil
+	}
 }
 
 func (s *Solver) Push() { s.send("(push)\n"); s.depth++ }
@@ -86,6 +124,7 @@ func (s *Solver) Check() string {
 	default:
 		s.Unknown++
 		if line != "unknown" {
+			s.dead = true
 			panic("solver said: " + line)
 		}
 	}
@@ -95,10 +134,12 @@ func (s *Solver) Check() string {
 func (s *Solver) readLine() string {
 	l, err := s.out.ReadString('\n')
 	if err != nil {
+		s.dead = true
 		panic("solver died: " + err.Error() + " " + l)
 	}
 	l = strings.TrimSpace(l)
 	if strings.HasPrefix(l, "(error") {
+		s.dead = true
 		panic("solver error: " + l)
 	}
 	return l
@@ -141,6 +182,7 @@ func (s *Solver) Model(vars []*Term) map[string]uint64 {
 	for {
 		l, err := s.out.ReadString('\n')
 		if err != nil {
+			s.dead = true
 			panic("solver died in get-value")
 		}
 		buf.WriteString(l)
@@ -157,6 +199,7 @@ func (s *Solver) Model(vars []*Term) map[string]uint64 {
 	}
 	txt := buf.String()
 	if strings.Contains(txt, "(error") {
+		s.dead = true
 		panic("solver error: " + txt)
 	}
 	// parse pairs (name value)
